@@ -1909,24 +1909,22 @@ impl StorageEngine {
         if let Some(stored_value) = shard_guard.data.get_mut(key) {
             let substring = match &stored_value.value {
                 Value::String(bytes) => {
-                    let len = bytes.len() as isize;
-                    
-                    let start = if start < 0 {
-                        std::cmp::max(0, len + start) as usize
-                    } else {
-                        start as usize
-                    };
-                    
-                    let end = if end < 0 {
-                        std::cmp::max(-1, len + end) as usize
-                    } else {
-                        std::cmp::min(end as usize, len as usize - 1)
-                    };
-                    
-                    if start > end || start >= bytes.len() {
+                    // Redis index normalisation, in arithmetic that cannot overflow
+                    let len = bytes.len() as i128;
+                    let (mut s, mut e) = (start as i128, end as i128);
+                    if len == 0 || (s < 0 && e < 0 && s > e) {
                         Vec::new()
                     } else {
-                        bytes[start..=end].to_vec()
+                        if s < 0 { s += len; }
+                        if e < 0 { e += len; }
+                        if s < 0 { s = 0; }
+                        if e < 0 { e = 0; }
+                        if e >= len { e = len - 1; }
+                        if s > e {
+                            Vec::new()
+                        } else {
+                            bytes[s as usize..=e as usize].to_vec()
+                        }
                     }
                 }
                 _ => return Err(StorageError::WrongType.into()),
